@@ -116,8 +116,32 @@ def run(name, checks, seed, tier):
     return 0
 
 
+def table():
+    rows = []
+    for name in sorted(os.listdir(SEEDED)):
+        mp = os.path.join(SEEDED, name, "meta.json")
+        if not os.path.exists(mp):
+            continue
+        m = json.load(open(mp))
+        caught = sorted({k.split("/")[0] for k, v in m["checks_run"].items() if v["verdict"] == "CAUGHT"})
+        missed = sorted({k.split("/")[0] for k, v in m["checks_run"].items() if v["verdict"].startswith("missed")} - set(caught))
+        rows.append("| `%s` | %s | %s | %s | %s |" % (name, m["breaks_property"], m["needs_to_manifest"], ", ".join(caught) or "—", ", ".join(missed) or "—"))
+    out = ["# Seeded changes", "",
+           "Each directory holds a change to RustPython/Parser written by a fresh sub-agent that was given only the text of one property and a scratch worktree "
+           "(nothing from /verif): `patch.diff`, the author's demonstration (`demo.*`, `AUTHOR_NOTES.md`) and `meta.json` (what it breaks, what it needs in order to "
+           "manifest, how it was confirmed, which checks were run against it with which verdict). Every change compiles, passes the repository's existing test suite, "
+           "fails its demonstration with the change and passes it without — confirmed independently in a fresh scratch worktree (`tools_seeded.py confirm`). "
+           "None of them is ever committed to /repo; `tools_seeded.py run <name> <checks>` applies one, runs the checks and restores /repo.", "",
+           "| change | breaks | needs | caught by (quick tier) | run but silent |", "|---|---|---|---|---|"] + rows + [""]
+    open(os.path.join(SEEDED, "README.md"), "w").write("\n".join(out))
+    print("\n".join(rows))
+
+
 if __name__ == "__main__":
     a = sys.argv[1:]
+    if a[0] == "table":
+        table()
+        sys.exit(0)
     if a[0] == "confirm":
         i = a.index("--")
         name, wt, out, dest = a[1:5]
